@@ -420,9 +420,9 @@ impl C05 {
             let items = match caught(|| {
                 if no_lb {
                     let o = tfm::ligkern::RunOptions { disable_left_boundary: true, right_boundary_override: None };
-                    compiled.run_with_options(s.chars(), o).collect::<Vec<RunItem>>()
+                    compiled.run_with_options(s.chars(), o).take(MAX_ITEMS).collect::<Vec<RunItem>>()
                 } else {
-                    compiled.run(&s).collect::<Vec<RunItem>>()
+                    compiled.run(&s).take(MAX_ITEMS).collect::<Vec<RunItem>>()
                 }
             }) {
                 Ok(i) => i,
@@ -431,6 +431,17 @@ impl C05 {
                     return;
                 }
             };
+            if items.len() >= MAX_ITEMS {
+                // the iterator is supposed to be finite: a word of n characters yields at most
+                // n replacements; do not let a runaway iterator eat the machine
+                out.fail(
+                    Kind::ImplVsSpec,
+                    stream,
+                    "run: iterator does not terminate",
+                    format!("run({s:?}) produced more than {MAX_ITEMS} items"),
+                );
+                return;
+            }
             let e = enc_items(&items);
             req.push_str(&format!(" | {} {} | {}", w.len(), join(w), join(&e)));
             for it in &items {
@@ -528,6 +539,8 @@ fn trunc(s: &str) -> String {
 // ------------------------------------------------------------------------------------------
 
 const A: i64 = 97;
+/// No word of the generators (≤ 10 characters, replacements of a handful of ops) comes near this.
+const MAX_ITEMS: usize = 20_000;
 
 /// A rule over the small alphabet: (left: -1 | a b c, right, kind, x, y).
 type Rule = (i64, i64, i64, i64, i64);
